@@ -60,7 +60,7 @@ def rec(a, b=1, k=2, *more):
 
 
 def namespace(df):
-    return {"rec": rec, "np": np, "I": (lambda v: v), "x": df["x"], "z": df["z"], "True": True, "code": df["code"], "flag": df["flag"]}
+    return {"rec": rec, "np": np, "I": (lambda v: v), "x": df["x"], "z": df["z"], "True": True, "code": df["code"], "flag": df["flag"], "nn": None, "zero": 0, "empty": ""}
 
 
 OPS_Q2 = ["+", "-", "*", "/", "**", "==", "<", "<=", ">"]
@@ -406,6 +406,7 @@ CALLS = [
     "rec(x, 9007199254740993)", "rec(x, k=18014398509481985)", "I(x + 9007199254740993 - 9007199254740992)", "rec(x, 0.1234567890123456789)", "rec(x, 100000000000000000000)",
     "rec(x, 2, 3, 4, 5)", "rec(x, 0.5, .5)", "rec(-x, +z)", "rec(x, k=z ** 2)", "rec(x, -2)", "rec(x, - 2)", "np.power(x, 2)", "I(np.maximum(x, z) - np.minimum(x, z))",
     "rec(code == '2')", "rec(code + code == '22')", "rec(code == '10', 2)", "rec(code + 'a' == '10a')", "rec(flag == 'True', flag == 'None')", "rec(flag + code == 'nan1')", "rec(code != '1', k=(code == '1'))",
+    "rec(x, nn)", "rec(x, k=nn)", "rec(x, zero, k=empty)", "rec(x, rec(z, nn), k=zero)",  # names bound to None / 0 / '' are bound
     "rec(x > 1, z <= 2)", "rec(x == 2.0)", "rec(x != z, x < z)", "rec(x, 'a b')", "rec(x, 'a,b)')", "rec( x ,k = 3 )", "rec(x,k=3)",
 ]
 DISTINCT = [("rec(x, 1)", "rec(x, True)"), ("rec(x, 0)", "rec(x, False)"), ("rec(x, 2)", "rec(x, 2.0)"), ("rec(x, 'a')", 'rec(x, "a")'), ("rec(x, k=1)", "rec(x, k=2)"),
@@ -566,7 +567,7 @@ def check_e2e(case, acc):
     for c in CALLS:
         acc.calls += 1
         try:
-            dm = design_matrices(f"y ~ 0 + {c}", df, extra_namespace={"rec": rec})
+            dm = design_matrices(f"y ~ 0 + {c}", df, extra_namespace={"rec": rec, "nn": None, "zero": 0, "empty": ""})
         except Exception as ex:
             problems.append(("value", "rejected", f"design_matrices('y ~ 0 + {c}') raised {type(ex).__name__}: {ex}"))
             continue
